@@ -46,6 +46,7 @@ def parse_outcome(text):
 
 
 class Text(Suite):
+    escalate_cap = 3000
     name = "text"
     imports = ["Parser", "Judge.JC18"]
     judge = "judge_text"
